@@ -809,6 +809,10 @@ func genRetryCycle(r *hx.Rng, mode int) *gScen {
 		g.sc.nodes[h].early, g.sc.nodes[h].after = 1, 1
 	case 3:
 		g.sc.nodes[h].after = 2
+	case 5: // H itself fails the first time, AFTER P was completed with H's early version
+		g.sc.nodes[h].early = 1
+		g.sc.nodes[h].flt = fltLookup | fltInitOnce
+		g.sc.nodes[p].flt = 0
 	}
 	if r.P(1, 2) {
 		g.addNode(g.randType(func(u utInfo) bool { return len(u.ifs) > 0 && !u.pp && !u.lazy && !u.runner }), r.P(1, 3))
@@ -1011,7 +1015,7 @@ func graphCorpus(w *hx.Writer) {
 		emitGraph(genProgQualified(r.Fork()), []string{"corpus", "progq"}, w)
 		if i < 12 {
 			emitGraph(genTolerated(r.Fork()), []string{"corpus", "tolerated"}, w)
-			emitGraph(genRetryCycle(r.Fork(), i%5), []string{"corpus", "retrycycle"}, w)
+			emitGraph(genRetryCycle(r.Fork(), i%6), []string{"corpus", "retrycycle"}, w)
 		}
 	}
 }
